@@ -1,0 +1,47 @@
+//go:build verif
+
+package remoting
+
+import (
+	"encoding/binary"
+	"net"
+	"time"
+
+	"github.com/kercylan98/vivid"
+	"github.com/kercylan98/vivid/internal/remoting/serialize"
+)
+
+// VerifNewAcceptedConnection builds the connection actor of the accepting side over an arbitrary
+// net.Conn (it performs the server side of the handshake on it) for the verification harness.
+func VerifNewAcceptedConnection(conn net.Conn, advertiseAddr string, codec vivid.Codec, handler NetworkEnvelopHandler) (vivid.Actor, error) {
+	return newTCPConnectionActor(false, conn, advertiseAddr, codec, handler)
+}
+
+// VerifEncodeFrame encodes an envelope exactly like Mailbox.Enqueue does before writing it: len32 ++ body.
+func VerifEncodeFrame(codec vivid.Codec, envelop vivid.Envelop) ([]byte, error) {
+	data, err := serialize.EncodeEnvelopWithRemoting(codec, envelop)
+	if err != nil {
+		return nil, err
+	}
+	lengthBuf := make([]byte, 4)
+	binary.BigEndian.PutUint32(lengthBuf, uint32(len(data)))
+	return append(lengthBuf, data...), nil
+}
+
+// VerifHandshakeBytes returns what a dialling peer sends first on a new connection.
+func VerifHandshakeBytes(advertiseAddr string) ([]byte, error) {
+	c := &captureConn{}
+	if err := (&Handshake{AdvertiseAddr: advertiseAddr}).Send(c); err != nil {
+		return nil, err
+	}
+	return c.data, nil
+}
+
+type captureConn struct {
+	net.Conn
+	data []byte
+}
+
+func (c *captureConn) Write(p []byte) (int, error) { c.data = append(c.data, p...); return len(p), nil }
+
+func (c *captureConn) SetWriteDeadline(time.Time) error { return nil }
